@@ -236,9 +236,33 @@ func (p *Printer) litSep(kind, def string) string {
 	return def
 }
 
+// emptyLit emits the inside of an empty literal: nothing, blanks, a newline, or comments (with Multiline).
+func (p *Printer) emptyLit() string {
+	if !p.Multiline || p.Ch == nil {
+		return p.pick("ws-after-open", "", " ")
+	}
+	switch p.Ch(5, "lit-empty") {
+	case 1:
+		return "\n"
+	case 2:
+		p.ncomment++
+		return " // m" + strconv.Itoa(p.ncomment) + "\n"
+	case 3:
+		p.ncomment += 2
+		return " // m" + strconv.Itoa(p.ncomment-1) + "\n    // m" + strconv.Itoa(p.ncomment) + "\n"
+	case 4:
+		p.ncomment++
+		return "\n\n// m" + strconv.Itoa(p.ncomment) + "\n\n"
+	}
+	return p.pick("ws-after-open", "", " ")
+}
+
 func (p *Printer) arrLit(v ArrLit) string {
 	var sb strings.Builder
 	sb.WriteString("[")
+	if len(v.Els) == 0 {
+		sb.WriteString(p.emptyLit())
+	}
 	if len(v.Els) > 0 {
 		sb.WriteString(p.litSep("open", p.pick("ws-after-open", "", " ")))
 	}
@@ -258,6 +282,9 @@ func (p *Printer) arrLit(v ArrLit) string {
 func (p *Printer) mapLit(v MapLit) string {
 	var sb strings.Builder
 	sb.WriteString("{")
+	if len(v.Keys) == 0 {
+		sb.WriteString(p.emptyLit())
+	}
 	if len(v.Keys) > 0 {
 		sb.WriteString(p.litSep("open", p.pick("ws-after-open", "", " ")))
 	}
